@@ -113,6 +113,9 @@ def fmt_cases():
     for t1, t2 in itertools.product([":x", ":08X", ":3b", ":o", ":05", ""], ["", ":d", ":5"]):
         out.append({"fmt": "{1" + t1 + "}{0" + t2 + "}{1}", "x": 171, "y": 205, "s": "str"})
         out.append({"fmt": "{" + t1 + "}{" + t2 + "}{}", "x": 171, "y": 205, "s": "str"})
+    # every integer type fmt() has an overload for (values below 128 so that each type holds them)
+    for t1, t2 in itertools.product(["", ":x", ":08X", ":5", ":o", ":3b"], ["", ":x", ":05"]):
+        out.append({"fmt": "{" + t1 + "}|{" + t2 + "}|{}", "x": 100, "y": 27, "s": "z", "types": 1})
     for f in ["{{", "{", "{0", "}}", "{}{}{}{}", "{}{:x}{}", "no specs", "", "{{}}", "{1}{0}{1}", "{ 0}", "{0 }", "{:0}", "{:00005}", "tail {", "{2:x}"]:
         out.append({"fmt": f, "x": 10, "y": 200, "s": "s"})
     return out
